@@ -4,6 +4,7 @@ package main
 // function ids, final globals), and drives per-function translation.
 
 import (
+	"sync"
 	"fmt"
 	"go/token"
 	"go/types"
@@ -43,6 +44,8 @@ type Engine struct {
 	scopeKinds     map[*ssa.Function][]string
 	closerMemo *closerInfo
 	deadMemo   map[*ssa.Function]bool
+	bindings   map[string]*fnBindings
+	bindMu     sync.Mutex
 	relevantGhosts map[string]bool
 	deadSkipped map[string]bool
 	closeMemo      map[*ssa.Function]int
